@@ -1,4 +1,4 @@
-import DFV.Lemmas.C14
+import DFV.Lemmas.C14Persist
 /-!
 # C14 — subregions stay inside, aligned with and measured in cells of their mesh
 -/
@@ -280,6 +280,189 @@ theorem getName_region (m g : Mesh) (name : String) (h : getName m name = .ok g)
             · cases h
             · injection h with h; subst h; rfl
 
+
+/-! ## the subregion invariant `SubInv` (exact-arithmetic reading) -/
+
+/-- What `SubInv` says, read as inequalities: an exactly fitting subregion lies inside the region
+(`pmin ≤ s.pmin < s.pmax ≤ pmax` on every axis) and is itself a proper region carrying the mesh's
+dimension names and units. -/
+theorem subInv_inside (m : Mesh) (hm : m.Inv) (hs : SubInv m) (p : String × Region) (hp : p ∈ m.subs) :
+    p.2.Inv ∧ p.2.dims = m.region.dims ∧ p.2.units = m.region.units ∧
+    ∀ a, a < m.ndim → m.region.lo a ≤ p.2.lo a ∧ p.2.lo a < p.2.hi a ∧ p.2.hi a ≤ m.region.hi a :=
+  ⟨subOkE_regionInv m hm p.2 (hs p hp), (hs p hp).1, (hs p hp).2.1, fits_bounds m hm p.2 (hs p hp).2.2.2⟩
+
+/-- **Completeness of the setter.**  Every candidate set of boxes that fit the mesh exactly (inside,
+whole cells, on the lattice — whatever names, units or tolerance the candidates carry) is accepted
+by `setSubs` (all three tolerant tests pass), the result holds exactly the re-created candidates
+and satisfies `SubInv`.  Together with `set_rejects`/`set_accepts` this pins the setter from both
+sides in exact arithmetic. -/
+theorem set_accepts_exact (m : Mesh) (hm : m.Inv) (subs : List (String × Region)) (h : ∀ p ∈ subs, FitsE m p.2) :
+    setSubs m subs = .ok { m with subs := subs.map (restamp m.region) } ∧
+    SubInv { m with subs := subs.map (restamp m.region) } :=
+  setSubs_of_fits m hm subs h
+
+/-- **"This stays true after translating, scaling, rotating" — one step.**  For a mesh satisfying
+the mesh invariant and `SubInv`, EVERY accepted `stepM` (translate; scale by any non-zero factor(s)
+of either sign about any reference point; quarter turn by any integer `k` in any plane about any
+reference point; in-place or copying form) leaves receiver and returned mesh with `SubInv`: every
+subregion again carries the (new) mesh's names and units and sits a whole number of (new) cells
+into the (new) region, a whole number of cells long, inside — and names and order are kept.
+The copying form re-validates the images with the tolerant tests of the setter; those tests only
+gate (they can reject, never alter), so the statement needs no tolerance reading: whatever is
+returned fits exactly. -/
+theorem stepM_subInv (m : Mesh) (hm : m.Inv) (hs : SubInv m) (op : Op) (recv ret : Mesh)
+    (h : stepM m op = .ok (recv, ret)) :
+    SubInv recv ∧ SubInv ret ∧ ret.subs.map (·.1) = m.subs.map (·.1) :=
+  stepM_subInv' m hm hs op recv ret h
+
+/-- **… and after ANY finite history of transformation calls** (rejected steps skipped, every mix
+of in-place and copying steps): the mesh invariant and `SubInv` hold, and the subregion names are
+the original ones in the original order — by induction over the history. -/
+theorem runM_subInv (m : Mesh) (hm : m.Inv) (hs : SubInv m) (ops : List Op) :
+    (runM m ops).Inv ∧ SubInv (runM m ops) ∧ (runM m ops).subs.map (·.1) = m.subs.map (·.1) := by
+  induction ops generalizing m with
+  | nil => exact ⟨hm, hs, rfl⟩
+  | cons op ops ih =>
+    simp only [runM]
+    cases h : stepM m op with
+    | error e => exact ih m hm hs
+    | ok p =>
+      obtain ⟨recv, ret⟩ := p
+      obtain ⟨_, h2, h3⟩ := stepM_subInv' m hm hs op recv ret h
+      obtain ⟨a, b, c⟩ := ih ret (stepM_keeps m hm op recv ret h).2.1 h2
+      exact ⟨a, b, c.trans h3⟩
+
+/-- **The mesh extracted for a named subregion** of a mesh satisfying `SubInv`: the extraction
+succeeds, the result has exactly that subregion as its region, exactly the parent's cell size on
+every axis, as many cells as the subregion is long (`n·cell = extent`), and no subregions. -/
+theorem getName_spec (m : Mesh) (hm : m.Inv) (hs : SubInv m) (name : String) (p : String × Region)
+    (hp : m.subs.find? (fun p => p.1 == name) = some p) :
+    ∃ g, getName m name = .ok g ∧ g.region = p.2 ∧ g.subs = [] ∧
+      ∀ a, a < m.ndim → g.cellAt a = m.cellAt a ∧ 0 < g.nAt a ∧ (g.nAt a : Rat) * m.cellAt a = p.2.edge a := by
+  have hmem : p ∈ m.subs := List.mem_of_find?_eq_some hp
+  obtain ⟨g, hg, h1, h2, h3⟩ := mkCell_of_fits m hm p.2 (hs p hmem).2.2.2
+  refine ⟨g, ?_, h1, h2, h3⟩
+  unfold getName; rw [hp]; exact hg
+
+/-- an unknown name is refused -/
+theorem getName_unknown (m : Mesh) (name : String) (h : m.subs.find? (fun p => p.1 == name) = none) :
+    getName m name = .error .key := by
+  unfold getName; rw [h]
+
+
+/-- non-vacuity of `stepM_subInv` / `runM_subInv` / `getName_spec`: the 3-d mesh `exM` (anisotropic
+counts and cells, two touching subregions, periodic in x) satisfies the mesh invariant and `SubInv`;
+the history `exOps` (in-place scale by (−2, ½, 3) about a far reference point, copying quarter turn
+with k = −3, in-place translation) is accepted step by step and ends with the counts permuted. -/
+example : exM.Inv ∧ SubInv exM := ⟨exM_inv, exM_subInv⟩
+example : (runM exM exOps).n = [6, 4, 1] ∧ (runM exM exOps).bc = "y" ∧ (runM exM exOps).subs.length = 2 := by decide +kernel
+example : SubInv (runM exM exOps) := (runM_subInv exM exM_inv exM_subInv exOps).2.1
+example : exM.subs.find? (fun p => p.1 == "b") = some ("b", ⟨[6, 0, 0], [8, 6, 2], ["x", "y", "z"], ["m", "s", "K"], 1/1000000000000⟩) := by
+  decide +kernel
+/-- non-vacuity of `set_accepts_exact`: a candidate with other names/units that fits `exM` exactly -/
+example : FitsE exM ⟨[0, 2, 0], [4, 5, 2], ["p", "q", "r"], ["a", "b", "c"], 0⟩ := fitsE_of_fitsB _ _ (by decide +kernel)
+
+/-! ## selections: which subregions are kept, how, and `SubInv` of the result -/
+
+/-- **Range selection, full statement.**  For a mesh satisfying the mesh invariant and `SubInv`, a
+successful `selRange m ax a b` keeps the cells `i0 … i1` containing the two bounds (`i0 ≤ i1 < n`):
+the region is cut to the slab `[pmin + i0·cell, pmin + (i1+1)·cell]` along `ax`, the count there is
+`i1 − i0 + 1`, and the subregions of the result are EXACTLY those whose open extent along `ax`
+meets the open slab (`s.pmin < slab.hi ∧ slab.lo < s.pmax` — both directions: every such subregion
+is kept, no other is; this includes bounds that fall exactly on a subregion face), each clipped
+to the slab (`clipSub`, the intersection by `clip_is_intersection`) and re-created with the result's
+metadata, in the original order.  The result satisfies the mesh invariant and `SubInv`. -/
+theorem sel_range_spec (m m' : Mesh) (hm : m.Inv) (hs : SubInv m) (ax : Nat) (a b : Rat)
+    (h : selRange m ax a b = .ok m') :
+    m'.Inv ∧ SubInv m' ∧ ax < m.ndim ∧
+    ∃ i0 i1, i0 ≤ i1 ∧ i1 < m.nAt ax ∧ i0 = m.indexAx ax (min a b) ∧ i1 = m.indexAx ax (max a b) ∧
+      m'.region = { m.region with pmin := setAt m.region.pmin ax (loSlab m ax i0),
+                                  pmax := setAt m.region.pmax ax (hiSlab m ax i1) } ∧
+      m'.n = setAt m.n ax (i1 - i0 + 1) ∧
+      m'.subs = (m.subs.filter fun p => decide (p.2.lo ax < hiSlab m ax i1) && decide (loSlab m ax i0 < p.2.hi ax)).map
+        fun p => restamp m'.region (p.1, clipSub m ax i0 i1 p.2) := by
+  obtain ⟨hax, i0, i1, h01, h1n, e0, e1, hreg, hn, hsub⟩ := selRange_inv m m' hm ax a b h
+  obtain ⟨hi, hsi⟩ := selRange_keeps m m' hm hs ax i0 i1 hax h01 h1n hreg hn hsub
+  refine ⟨hi, hsi, hax, i0, i1, h01, h1n, e0, e1, hreg, hn, ?_⟩
+  rw [hsub, range_filter_eq m hm hs ax i0 i1 hax]
+
+/-- "clipped to it": the clipped subregion is, as a closed box, exactly the intersection of the
+subregion with the kept slab -/
+theorem clip_is_intersection (m : Mesh) (ax i0 i1 : Nat) (s : Region) (hax : ax < s.ndim)
+    (hl : s.pmax.length = s.pmin.length) (p : List Rat) :
+    (clipSub m ax i0 i1 s).containsExact p ↔
+      s.containsExact p ∧ loSlab m ax i0 ≤ p.getD ax 0 ∧ p.getD ax 0 ≤ hiSlab m ax i1 :=
+  clipSub_inter m ax i0 i1 s hax hl p
+
+/-- **Plane selection, full statement.**  For a mesh satisfying the mesh invariant and `SubInv`, a
+successful `selPlane m ax x` removes axis `ax` (corners, names, units, count) and its subregions
+are EXACTLY those whose closed extent along `ax` contains the centre of the selected cell, with
+that axis removed (`dropSub`) and re-created with the result's metadata, in the original order.
+The result satisfies the mesh invariant and `SubInv`. -/
+theorem sel_plane_spec (m m' : Mesh) (hm : m.Inv) (hs : SubInv m) (ax : Nat) (x : Option Rat)
+    (h : selPlane m ax x = .ok m') :
+    m'.Inv ∧ SubInv m' ∧ ax < m.ndim ∧ 1 < m.ndim ∧
+      m'.region = { pmin := removeAt m.region.pmin ax, pmax := removeAt m.region.pmax ax,
+                    dims := removeAt m.region.dims ax, units := removeAt m.region.units ax, tol := m.region.tol } ∧
+      m'.n = removeAt m.n ax ∧
+      m'.subs = (m.subs.filter fun p =>
+          !(decide (p.2.hi ax < m.centreAx ax (m.indexAx ax (x.getD (m.region.center.getD ax 0)) : Nat)) ||
+            decide (m.centreAx ax (m.indexAx ax (x.getD (m.region.center.getD ax 0)) : Nat) < p.2.lo ax))).map
+        fun p => restamp m'.region (p.1, dropSub ax p.2) := by
+  obtain ⟨hax, h1, hdup, hreg, hn, hsub⟩ := selPlane_inv m m' hm ax x h
+  obtain ⟨hi, hsi⟩ := selPlane_keeps m m' hm hs ax _ hax h1 hdup hreg hn hsub
+  exact ⟨hi, hsi, hax, h1, hreg, hn, hsub⟩
+
+/-- non-vacuity of `sel_range_spec` / `sel_plane_spec`: on `exM` the range x ∈ [3, 5] keeps the cells
+[2,4], [4,6]; the slab ends exactly on the face x = 6 shared by the two subregions: "a" is kept, "b" —
+which only touches the slab — is dropped; the plane y = 2.2 keeps both. -/
+example : (match selRange exM 0 3 5 with | .ok g => g.subs.map (fun q => (q.1, q.2.pmin, q.2.pmax)) | .error _ => [])
+    = [("a", [2, 1, 0], [6, 3, 2])] := by decide +kernel
+example : (match selPlane exM 1 (some (11/5)) with | .ok g => g.subs.map (fun q => (q.1, q.2.pmin, q.2.pmax)) | .error _ => [])
+    = [("a", [2, 0], [6, 2]), ("b", [6, 0], [8, 2])] := by decide +kernel
+
+/-! ## persistence: the JSON side-car -/
+
+/-- decode ∘ encode on one region: `Region(**region.to_dict())` (through the `pmin < pmax` keyword
+path and the ordinary constructor) gives back every proper region unchanged -/
+theorem region_json_roundtrip (r : Region) (hr : r.Inv) : regionOfJV (regionToJV r) = .ok r :=
+  regionOfJV_toJV r hr
+
+/-- **load(save(m)).subs = m.subs.**  The side-car written by `save_subregions` for a mesh
+satisfying the mesh invariant and `SubInv`, loaded with `load_subregions` into any mesh `m0` of the
+same geometry (same region and counts — e.g. the mesh a field file describes, which carries no
+subregions yet, whatever subregions `m0` held before), is decoded entry by entry, accepted by the
+setter, and re-attaches exactly the saved subregions: names, order, corners, dimension names,
+units, tolerance. -/
+theorem load_save_roundtrip (m m0 : Mesh) (hm : m.Inv) (hs : SubInv m) (hr : m0.region = m.region) (hn : m0.n = m.n) :
+    loadSubs m0 (saveSubs m) = .ok { m0 with subs := m.subs } :=
+  load_save' m m0 hm hs hr hn
+
+/-- **Loading re-attaches through the setter.**  A successful `load_subregions` decoded the file
+into a dictionary of regions and that dictionary passed the `subregions` setter of the receiving
+mesh: every attached subregion passed the inside / whole-cell / lattice tests of THIS mesh and
+carries its names, units and tolerance; region and counts of the mesh are untouched. -/
+theorem load_through_setter (m m' : Mesh) (j : JV) (h : loadSubs m j = .ok m') :
+    ∃ subs, subsOfJV j = .ok subs ∧ setSubs m subs = .ok m' ∧ (∀ p ∈ subs, subOk m p.2 = true) ∧
+      m'.subs = subs.map (restamp m.region) ∧ m'.region = m.region ∧ m'.n = m.n := by
+  obtain ⟨subs, h1, h2⟩ := load_inv' m m' j h
+  obtain ⟨e, hall⟩ := setSubs_ok_eq m m' subs h2
+  exact ⟨subs, h1, h2, hall, by rw [e], by rw [e], by rw [e]⟩
+
+/-- … so a side-car that does not fit the mesh (some decoded box fails one of the three tests) is
+rejected — and, the model being functional, the mesh keeps its previous subregions. -/
+theorem load_rejects_misfit (m : Mesh) (j : JV) (subs : List (String × Region)) (p : String × Region)
+    (hd : subsOfJV j = .ok subs) (hp : p ∈ subs) (hbad : subOk m p.2 = false) :
+    loadSubs m j = .error .value := by
+  unfold loadSubs; rw [hd]; exact set_rejects m subs p hp hbad
+
+/-- non-vacuity of the persistence theorems: `exM` meets the hypotheses of `load_save_roundtrip`
+(with `m0` = the same geometry without subregions); the same side-car offered to a mesh shifted by
+a third of a cell is rejected. -/
+example : loadSubs { exM with subs := [] } (saveSubs exM) = .ok exM :=
+  load_save_roundtrip exM { exM with subs := [] } exM_inv exM_subInv rfl rfl
+example : (match loadSubs { exM with region := { exM.region with pmin := [2/3, 0, 0], pmax := [26/3, 6, 2] }, subs := [] } (saveSubs exM) with
+    | .ok _ => true | .error _ => false) = false := by decide +kernel
 
 /-- non-vacuity: two concrete meshes offset by two cells are aligned; offset by half a cell they are not -/
 example : isAligned ⟨⟨[0, 0], [4, 2], ["x", "y"], ["m", "m"], 0⟩, [4, 2], "", []⟩
